@@ -228,7 +228,11 @@ class Checker:
         """
         info = self.info
         if "files" in info:
-            tops = {item["path"][0] for item in info["files"] if item["path"]}
+            tops = {
+                item["path"][0]
+                for item in info["files"]
+                if item["path"] and "p" not in item.get("attr", "")
+            }
         else:
             tree = info.get("file tree", {})
             if "length" in info or (list(tree) == [self.name]
